@@ -13,10 +13,12 @@ from .ref import interp as ri
 SM_ARN = W.sm_arn("m1")
 
 
-def publish_raw_start(w, sm_arn, data, message_id=None, definition=None):
+def publish_raw_start(w, sm_arn, data, message_id=None, definition=None, execution_id=None):
     """A start event put on the shared queue the way the repo's launcher scripts do (Message(json) via a Producer)."""
     import pika
     ctx = {"StateMachine": {"Id": sm_arn}}
+    if execution_id is not None:
+        ctx["Execution"] = {"Id": execution_id}     # the client chooses the execution's ARN (and leaves the rest of the Execution object to the engine)
     if definition is not None:
         ctx["StateMachine"]["Definition"] = definition
     body = json.dumps({"data": data, "context": ctx})
@@ -94,7 +96,8 @@ def run_monitored(case, schedule=(), want=("lifecycle", "ack", "history", "surfa
                 started.append(r["executionArn"])
             else:
                 raw_count += 1
-                publish_raw_start(w, SM_ARN, s["input"], message_id=("raw-%d" % k) if s["mode"] == "raw-id" else None)
+                publish_raw_start(w, SM_ARN, s["input"], message_id=("raw-%d" % k) if s["mode"] == "raw-id" else None,
+                                  execution_id=(SM_ARN.replace(":stateMachine:", ":execution:") + ":chosen-%d" % k) if s["mode"] == "raw-arn" else None)
         n_before = len(started)
         def settled(w_):
             """Everything announced has ended and nothing but far-away timers (e.g. a leaked task time-out) remains."""
@@ -197,7 +200,7 @@ def cases_with_schedules(cfg=None, max_sched=40, multi=True):
         if multi and not attempt_dependent:
             extra = draw(st.integers(0, 2))
             for k in range(extra):
-                mode = draw(st.sampled_from(["api", "api", "raw-id", "raw"]))
+                mode = draw(st.sampled_from(["api", "api", "raw-id", "raw", "raw-arn"]))
                 inp = case["input"] if draw(st.booleans()) else draw(gm.inputs())
                 starts.append({"mode": mode, "input": inp, "name": "x%d" % (k + 2)})
         return {"definition": case["definition"], "input": case["input"], "oracle": case["oracle"], "type": case["type"],
